@@ -294,6 +294,10 @@ def cases(draw):                                                   # noqa: C901
         'fake': draw(st.sampled_from([True, True, False])) if rm == 'FORK' else False,
         'drop_env': fault == 'drop_env', 'no_nodefile': False,
     }
+    if rm == 'PBSPRO' and mode == 'vnode' and configured and not fault and draw(st.integers(0, 3)) == 0:
+        # the chunks report another core count than the platform configuration (a partial node,
+        # hardware threads counted): which one wins is open, the result must be consistent
+        case['hw'] = draw(st.sampled_from([max(1, E // 2), E * 2, E + 1]))
     if rm == 'LSF' and fault == 'cpn_mismatch' and configured:
         case['cpn'] = phys + 1
         case['cores'] = (nodes + backup) * max(1, (phys + 1) * smt - len(blocked_cores))
@@ -479,6 +483,16 @@ def run_case(case):                                                # noqa: C901
 
     if e.verdict == 'either':
         res.label('either:%s' % e.why.split(':')[0][:40])
+        if e.why.startswith('pbspro: ncpus differs') and not (case.get('blocked_cores') or []):
+            # which of the two core counts wins is not demanded - but the nodes offered carry the
+            # number of cores per node which the resource manager reports to every component
+            cpn = info.get('cores_per_node')
+            bad = [(n['name'], len(n['cores'])) for n in everyone if len(n['cores']) != cpn]
+            if bad:
+                res.fail('node_cores_vs_reported:%s' % tag,
+                         'cores_per_node reported as %r, nodes offered with %s (configured %s, ncpus %s)'
+                         % (cpn, bad[:4], case.get('cpn'), case.get('hw')))
+            res.nontrivial = True
         return res
 
     # ---- model clauses ------------------------------------------------------
